@@ -66,7 +66,8 @@ def switch(*args):
 def Saturation(x, xmin, xmax):
     # clip in floating point: an integer-valued x would be clipped to integers (Saturation(2, 0.6, 1.6) == 1)
     x = np.asarray(x).reshape((-1,)).astype(np.float64)
-    return np.clip(x, xmin, xmax)
+    # minimum/maximum broadcast a length-1 x against vector limits; numba's np.clip does not
+    return np.minimum(np.maximum(x, xmin), xmax)
 
 
 @njit(cache=True)
